@@ -72,7 +72,10 @@ func RangeNew(metatype *Type, args Tuple, kwargs StringDict) (Object, error) {
 	if stepIndex == 0 {
 		return nil, ExceptionNewf(ValueError, "range() arg 3 must not be zero")
 	}
-	length := computeRangeLength(startIndex, stopIndex, stepIndex)
+	length, ok := rangeLength(startIndex, stopIndex, stepIndex)
+	if !ok {
+		return nil, ExceptionNewf(OverflowError, "range() result has too many items")
+	}
 	return &Range{
 		Start:  startIndex,
 		Stop:   stopIndex,
@@ -160,21 +163,31 @@ func computeItem(r *Range, item Int) Int {
 }
 
 func computeRangeLength(start, stop, step Int) Int {
-	var lo, hi Int
-	if step > 0 {
-		lo = start
-		hi = stop
-	} else {
-		lo = stop
-		hi = start
-		step = (-step)
-	}
-
-	if lo >= hi {
-		return Int(0)
-	}
-	res := (hi-lo-1)/step + 1
+	res, _ := rangeLength(start, stop, step)
 	return res
+}
+
+// rangeLength counts the items of range(start, stop, step) exactly
+// for any start, stop and non zero step; ok is false if the count
+// does not fit an Int
+func rangeLength(start, stop, step Int) (length Int, ok bool) {
+	var lo, hi Int
+	var ustep uint64
+	if step > 0 {
+		lo, hi, ustep = start, stop, uint64(step)
+	} else {
+		lo, hi, ustep = stop, start, -uint64(step)
+	}
+	if lo >= hi {
+		return Int(0), true
+	}
+	// hi > lo so their distance is exact as an unsigned word
+	// (hi-lo overflows an Int when the range spans more than 2**63)
+	n := (uint64(hi)-uint64(lo)-1)/ustep + 1
+	if n > uint64(IntMax) {
+		return Int(0), false
+	}
+	return Int(n), true
 }
 
 func computeNegativeIndex(index, length Int) Int {
